@@ -162,7 +162,7 @@ def run_case(ctx, objdir, prog, opts, ptype, minsz, tag):
     uft = os.path.join(objdir, "uftrace")
     exe = prog["exe"]
     if "native" not in prog:
-        rc, out, err = sh(["timeout", "20", exe], timeout=30)
+        rc, out, err = sh(["timeout", "20", exe], timeout=30, cwd=prog["dir"])      # -pg programs drop gmon.out
         prog["native"] = parse_run(out)
         prog["native_rc"] = rc
         if prog["native"]["T"] is None:
@@ -176,7 +176,7 @@ def run_case(ctx, objdir, prog, opts, ptype, minsz, tag):
         args += ["-P" if k == "P" else "-U", a]
     if minsz is not None:
         args += ["-Z", minsz if isinstance(minsz, str) else str(minsz)]
-    rc, out, err = sh(args + [exe], timeout=60)
+    rc, out, err = sh(args + [exe], timeout=60, cwd=prog["dir"])
     tr = parse_run(out)
     names = []
     if os.path.exists(os.path.join(dd, "info")):
